@@ -49,6 +49,7 @@ type c03Env struct {
 	qcs    map[string]hotstuff.QuorumCert
 	ops    []string
 	rules  string
+	aggs   map[string]*hotstuff.AggregateQC
 }
 
 func leaderRR(v hotstuff.View) hotstuff.ID { return hotstuff.ID(v%4 + 1) }
@@ -64,6 +65,28 @@ func newC03Env(ruleset string) *c03Env {
 		e.blocks[b.name] = blk
 		e.qcs[b.name] = e.c.QC(blk, 1, 2, 3) // really signed by replicas 2,3,4
 		e.ops = append(e.ops, "propose "+b.name)
+	}
+	// the same proposals carrying an aggregate QC (genuine: replicas 2,3,4 each report the block's own QC
+	// in a timeout message of the previous view); chained and simple HotStuff ignore the field, the
+	// obligations on the vote are the same with and without it
+	e.aggs = map[string]*hotstuff.AggregateQC{}
+	for _, b := range c03Pool {
+		blk := e.blocks[b.name]
+		qc := blk.QuorumCert()
+		v := blk.View() - 1
+		qm := map[hotstuff.ID]hotstuff.QuorumCert{}
+		var ss []hotstuff.QuorumSignature
+		for _, i := range []int{1, 2, 3} {
+			id := hotstuff.ID(i + 1)
+			qm[id] = qc
+			ss = append(ss, e.c.SignBytes(hotstuff.TimeoutMsg{ID: id, View: v, SyncInfo: hotstuff.NewSyncInfoWith(qc)}.ToBytes(), i)...)
+		}
+		agg := hotstuff.NewAggregateQC(qm, e.c.Combine(ss...), v)
+		e.aggs[b.name] = &agg
+		switch b.name { // a well-formed one, the two with a parent that is not the certified block, the wrong sender
+		case "B2a", "B2p", "B3o", "B2w":
+			e.ops = append(e.ops, "propose+aggqc "+b.name)
+		}
 	}
 	// (QC(B3a) makes the replica under test the leader of view 4: it proposes and signs its own block)
 	for _, n := range []string{"B1a", "B2a", "B1b", "B3a"} {
@@ -116,6 +139,10 @@ func (s *c03Sys) Apply(op int) string {
 		bn := strings.TrimPrefix(name, "propose ")
 		blk := s.e.blocks[bn]
 		pan, site = safelySite(func() { s.n.Deliver(hotstuff.ProposeMsg{ID: blk.Proposer(), Block: blk}) })
+	case strings.HasPrefix(name, "propose+aggqc "):
+		bn := strings.TrimPrefix(name, "propose+aggqc ")
+		blk := s.e.blocks[bn]
+		pan, site = safelySite(func() { s.n.Deliver(hotstuff.ProposeMsg{ID: blk.Proposer(), Block: blk, AggregateQC: s.e.aggs[bn]}) })
 	case strings.HasPrefix(name, "newview "):
 		bn := strings.TrimSuffix(strings.TrimPrefix(name, "newview QC("), ")")
 		pan, site = safelySite(func() {
@@ -205,9 +232,9 @@ func (s *c03Sys) Key() string {
 }
 
 func c03Local(r *ev.Reporter) {
-	depth := 6
+	depth := 5
 	if !r.Quick() {
-		depth = 8
+		depth = 7
 	}
 	var sum []string
 	for _, rs := range []string{rules.NameChainedHotStuff, rules.NameSimpleHotStuff, rules.NameFastHotStuff} {
@@ -223,6 +250,7 @@ func c03Local(r *ev.Reporter) {
 			}})
 		r.Count(st.States, st.Transitions, st.Transitions, st.States)
 		sum = append(sum, fmt.Sprintf("%s: depth=%d inputs=%d states=%d transitions=%d", rs, depth, len(e.ops), st.States, st.Transitions))
+		fmt.Println("single replica, " + sum[len(sum)-1])
 	}
 	r.Extra["single_replica_part"] = sum
 	r.Sample("single replica: propose B1a; newview QC(B1a); propose B2x (view 2, certifies the view-2 block B2a) -> must not be voted for")
